@@ -190,6 +190,8 @@ def oracle(case, rec):
             if cyc[s] >= 0:
                 e[s] = cv[cyc[s]]
         expect_proj('project_cycles_to_samples', call('project_cycles_to_samples', 'proj', cv.copy(), cyc.copy()), e)
+        # ... and with the cycle vector as the [samples x 1] column that get_cycle_vector returns and Cycles stores
+        expect_proj('project_cycles_to_samples', np.asarray(call('project_cycles_to_samples', 'proj', cv.copy(), cyc.copy()[:, None]), dtype=float).reshape(-1), e)
         e = np.full(K, np.nan)
         for c in range(K):
             if sub[c] >= 0:
@@ -200,6 +202,7 @@ def oracle(case, rec):
             if cyc[s] >= 0 and sub[cyc[s]] >= 0:
                 e[s] = sv[sub[cyc[s]]]
         expect_proj('project_subset_to_samples', call('project_subset_to_samples', 'proj', sv.copy(), sub.copy(), cyc.copy()), e)
+        expect_proj('project_subset_to_samples', np.asarray(call('project_subset_to_samples', 'proj', sv.copy(), sub.copy(), cyc.copy()[:, None]), dtype=float).reshape(-1), e)
         e = np.array([hv[chain[j]] for j in range(S)], dtype=float) if S else np.zeros(0)
         expect_proj('project_chain_to_subset', call('project_chain_to_subset', 'proj', hv.copy(), chain.copy()), e)
         e = np.full(K, np.nan)
@@ -213,6 +216,8 @@ def oracle(case, rec):
                 e[s] = hv[chain[sub[cyc[s]]]]
         expect_proj('project_chain_to_samples',
                     call('project_chain_to_samples', 'proj', hv.copy(), chain.copy(), sub.copy(), cyc.copy()), e)
+        expect_proj('project_chain_to_samples',
+                    np.asarray(call('project_chain_to_samples', 'proj', hv.copy(), chain.copy(), sub.copy(), cyc.copy()[:, None]), dtype=float).reshape(-1), e)
 
     # the projections again through ONE cycle-vector object with several selections in turn (nothing may be remembered
     # from an earlier call): original selection, a rotated one, the original again
